@@ -121,6 +121,7 @@ pub fn run(op: &str, input: &Value) -> Value {
         "tx.encode" => tx_encode(input),
         "typeddata" => typeddata(input),
         "cli" | "cli.new" => cli(input),
+        "seq" => seq(input),
         "rlp.len" | "rlp.bytes" | "rlp.uint" | "rlp.list" | "eip712.encode_type" | "eip712.member_kind"
         | "mnemonic.entropy" => hooks(op, input),
         other => Err(format!("unknown op {other}")),
@@ -209,7 +210,11 @@ fn mnemonic_sweep(input: &Value) -> R {
 }
 
 fn mnemonic_random(input: &Value) -> R {
-    let len = input.get("len").and_then(Value::as_u64).ok_or("len")? as usize;
+    // a number, or a decimal string for lengths beyond what the workload's integers can hold
+    let len = match input.get("len_text") {
+        Some(Value::String(t)) => t.parse::<usize>().map_err(|_| "len_text does not fit usize")?,
+        _ => input.get("len").and_then(Value::as_u64).ok_or("len")? as usize,
+    };
     let feed = match input.get("feed") {
         Some(Value::Null) | None => None,
         Some(f) => Some(doc::bytes(f)?),
@@ -288,6 +293,20 @@ fn hdk_derive(input: &Value) -> R {
         })),
         Err(e) => json!({ "err": e.to_string(), "stage": "derive" }),
     })
+}
+
+/// A HISTORY of library calls on one thread of one process: `steps` = [{op, in}], answered in order.
+fn seq(input: &Value) -> R {
+    let steps = input.get("steps").and_then(Value::as_array).ok_or("steps")?;
+    let mut outs = Vec::new();
+    for st in steps {
+        let op = st.get("op").and_then(Value::as_str).ok_or("step op")?;
+        if op.starts_with("cli") || op == "seq" {
+            return Err("a history consists of library calls".to_string());
+        }
+        outs.push(run(op, st.get("in").unwrap_or(&Value::Null)));
+    }
+    Ok(ok(json!({ "steps": outs })))
 }
 
 /// A HISTORY of derivations on one thread of one process: `steps` = [{seed, path}], answered in order.
